@@ -11,14 +11,16 @@ from . import gen, harness, pool, run, runlevel
 from .prng import stream
 
 RAISES = ["raise:Injected", "raise:RuntimeError", "raise:LinAlgError", "raise:ZeroDivisionError",
-          "raise:ValueError", "raise:KeyError", "raise:FloatingPointError"]
+          "raise:ValueError", "raise:KeyError", "raise:FloatingPointError",
+          "raise:BareInjected", "raise:BareAssertion", "raise:StopIteration"]
 VALS = ["val:nan", "val:inf", "val:-inf", "val:complex", "val:vector", "val:none", "val:list", "val:npnan",
         "val:arr_nan", "val:empty"]
 FORMS = ["form:scalar", "form:triple", "form:listpair", "form:single"]
 SDS = ["sd:zero", "sd:neg", "sd:nan", "sd:inf", "sd:-inf", "sd:complex", "sd:array"]
 SDS_WEAK = ["sd:none"]      # statement does not spell these out: any exception is accepted
 
-EXC_NAME = {"Injected": "InjectedTargetError", "LinAlgError": "LinAlgError"}
+EXC_NAME = {"Injected": "InjectedTargetError", "LinAlgError": "LinAlgError", "BareInjected": "InjectedTargetError",
+            "BareAssertion": "AssertionError"}
 
 
 def bases(seed, n):
